@@ -97,19 +97,19 @@ def gen_call(rng: random.Random, m: onnx.ModelProto) -> dict:
     tjs = {i.name: L.type_json(i.type) for i in m.graph.input}
     n = len(ins)
     style = rng.random()
-    if style < 0.45:  # a correct call
+    if style < 0.6:  # a correct call
         npos = rng.randrange(0, n + 1)
         kws = [k for k in ins[npos:] if not (k in defaults and rng.random() < 0.6)]
         rng.shuffle(kws)
-    elif style < 0.55:  # surplus positionals
+    elif style < 0.67:  # surplus positionals
         npos, kws = n + rng.randrange(1, 3), []
-    elif style < 0.65:  # duplicate
+    elif style < 0.74:  # duplicate
         npos = rng.randrange(1, n + 1)
         kws = [rng.choice(ins[:npos])] + [k for k in ins[npos:] if rng.random() < 0.8]
-    elif style < 0.75:  # unknown keyword
+    elif style < 0.81:  # unknown keyword
         npos = rng.randrange(0, n + 1)
         kws = list(ins[npos:]) + [rng.choice(["nope", "x_9", ins[0] + "_", "Inline_0__x__"])]
-    elif style < 0.9:  # something missing
+    elif style < 0.92:  # something missing
         npos = rng.randrange(0, n + 1)
         kws = [k for k in ins[npos:] if rng.random() < 0.5]
     else:  # anything
@@ -122,9 +122,9 @@ def gen_call(rng: random.Random, m: onnx.ModelProto) -> dict:
         if "t" not in tj:
             return tj
         r = rng.random()
-        if r < 0.7:
+        if r < 0.82:
             return concrete(tj, rng, "same")
-        if r < 0.8:
+        if r < 0.9:
             return concrete(tj, rng, "vary")
         e, dims = concrete(tj, rng, "same")["t"]
         k = rng.randrange(5)
@@ -354,6 +354,8 @@ def same(a, b) -> bool:
 def classify_build_error(m: onnx.ModelProto, e: BaseException) -> str:
     ins = {i.name for i in m.graph.input}
     cls = type(e).__name__
+    if cls == "ConvertError":  # onnx.version_converter (adapt_inline), third-party
+        return f"version-converter:{cls}:{'sparse' if 'Sparse tensors' in str(e) else 'other'}"
     if cls == "ScopeError":
         return "name-clash:ScopeError"
     if any(o.name in ins for o in m.graph.output):
@@ -594,6 +596,9 @@ def fixed_corner_models() -> list[tuple[onnx.ModelProto, dict]]:
     out.append((mk([H.make_node("Add", ["Inline_0__x", "Inline_0__x_0"], ["Inline_0__Inline_0__x"]),
                     H.make_node("Neg", ["Inline_0__Inline_0__x"], ["Inline_0_outputs_0"], name="Inline_0__x")],
                    [f2("Inline_0__x", ("N",)), f2("Inline_0__x_0", ("N",))], [f2("Inline_0_outputs_0", ("N",))], opset=13), ["hostile-names"]))
+    sp = H.make_sparse_tensor(NH.from_array(np.array([3.0], np.float32), "s"), NH.from_array(np.array([1], np.int64), ""), [2])
+    out.append((mk([H.make_node("Add", ["x", "s"], ["y"])], [f2("x")], [f2("y")], opset=14, sparse_initializer=[sp]),
+                ["sparse-initializer", "opset-14"]))
     return [(m, {"features": sorted(ft + ["corner"]), "runnable": True, "opset": m.opset_import[0].version, "kind": "corner"}) for m, ft in out]
 
 
@@ -601,7 +606,7 @@ def make_models(ck: core.Check, n_hand: int, n_spox: int):
     rng = ck.rng
     models = list(fixed_corner_models())
     dropped = 0
-    while len(models) < 6 + n_hand:
+    while len(models) < 7 + n_hand:
         m, meta = L.HandGen(rng).model()
         if valid(m, meta["runnable"], rng):
             models.append((m, meta))
@@ -654,7 +659,7 @@ def run(ck: core.Check):
         ck.leanchecker(["SpoxModel.Props.C08"])
 
     rng = ck.rng
-    n_hand, n_spox = ck.pick((70, 35), (700, 300))
+    n_hand, n_spox = ck.pick((220, 80), (2500, 800))
     models, dropped = make_models(ck, n_hand, n_spox)
     ck.log(f"{len(models)} models generated ({dropped} invalid candidates dropped)")
     feature_hist: dict[str, int] = {}
@@ -706,7 +711,7 @@ def run(ck: core.Check):
 
     # ---- evaluator correspondence: Inline.evalModel (integer interpreter) vs onnxruntime
     ev_reqs, ev_expect = [], []
-    n_eval = ck.pick(60, 600)
+    n_eval = ck.pick(200, 2000)
     tries = 0
     while len(ev_reqs) < n_eval and tries < 20 * n_eval:
         tries += 1
